@@ -9,9 +9,6 @@ import (
 	"sync/atomic"
 
 	"github.com/NethermindEth/juno/core/felt"
-	rpcv10 "github.com/NethermindEth/juno/rpc/v10"
-	rpcv9 "github.com/NethermindEth/juno/rpc/v9"
-	"github.com/NethermindEth/juno/utils/log"
 	"verif/harness/lib"
 )
 
@@ -45,8 +42,7 @@ func (c *ctx) rpcRaceSection(r *lib.RNG) {
 			res.Fatalf("rpc-race: store: %v", err)
 			return
 		}
-		h9 := rpcv9.New(dst, nil, nil, log.NewNopZapLogger())
-		h10 := rpcv10.New(dst, nil, nil, log.NewNopZapLogger())
+		hs := newRPCHandlers(dst)
 		var stop atomic.Bool
 		var wg sync.WaitGroup
 		var answered, mixed atomic.Int64
@@ -54,28 +50,14 @@ func (c *ctx) rpcRaceSection(r *lib.RNG) {
 		reader := func(version string) {
 			defer wg.Done()
 			for !stop.Load() {
-				var out any
-				var failed bool
-				_, panicked, _ := lib.Try(func() error {
-					if version == "v9" {
-						id := rpcv9.BlockIDLatest()
-						rr, e := h9.StorageProof(&id, nil, contracts, nil)
-						out, failed = rr, e != nil
-					} else {
-						id := rpcv10.BlockIDLatest()
-						rr, e := h10.StorageProof(&id, nil, contracts, nil)
-						out, failed = rr, e != nil
-					}
-					return nil
-				})
-				if panicked {
-					res.Violate(lib.Violation{Sig: "rpc-" + version + ":storage-proof-panics-while-a-block-is-stored", What: "StorageProof panics under a concurrent Store"})
+				raw, _, rpcErr, err := callStorageProof(version, hs, blockRef{Kind: "latest"}, nil, contracts, nil)
+				if err != nil {
+					res.Violate(lib.Violation{Sig: "rpc-" + version + ":storage-proof-panics-while-a-block-is-stored", What: "StorageProof panics under a concurrent Store: " + err.Error()})
 					return
 				}
-				if failed {
+				if rpcErr != nil {
 					continue
 				}
-				raw, _ := json.Marshal(out)
 				var resp jStorageProof
 				if json.Unmarshal(raw, &resp) != nil {
 					continue
@@ -98,10 +80,11 @@ func (c *ctx) rpcRaceSection(r *lib.RNG) {
 				}
 			}
 		}
-		for i := 0; i < 3; i++ {
-			wg.Add(2)
-			go reader("v9")
-			go reader("v10")
+		for i := 0; i < 2; i++ {
+			for _, v := range rpcVersions {
+				wg.Add(1)
+				go reader(v)
+			}
 		}
 		for i := 1; i < blocks; i++ {
 			if err := lib.StoreOn(dst, bundles[i]); err != nil {
